@@ -131,10 +131,38 @@ def division_report(root):
                     s2.assume(bnot(c))
                     if ex.feasible(s2):
                         run_stmt(s.orelse, s2)
+                elif isinstance(s, (ast.Assign, ast.AugAssign)):
+                    for s3, oc in ex.exec_stmt(s, state):
+                        state.env, state.pc, state.store = s3.env, s3.pc, s3.store
                 else:
                     for nn in ast.walk(s):
                         if isinstance(nn, ast.FormattedValue):
                             ex.eval(nn.value, state)
+        # locals the tail reads that are defined earlier by a single plain assignment (e.g. a hoisted `n = len(ids_to_process)`):
+        # that assignment is executed first, over the havocked inputs
+        assigns = {}
+        for nn in ast.walk(info.node):
+            if isinstance(nn, ast.Assign) and len(nn.targets) == 1 and isinstance(nn.targets[0], ast.Name):
+                assigns.setdefault(nn.targets[0].id, []).append(nn)
+        tail_first = min(s.lineno for s in tail)
+
+        def define(name, depth=0):
+            defs = [a for a in assigns.get(name, []) if a.lineno < tail_first]
+            if name in st.env or len(defs) != 1 or depth > 4:
+                return
+            for dep in [x.id for x in ast.walk(defs[0].value) if isinstance(x, ast.Name)]:
+                define(dep, depth + 1)
+            try:
+                for s3, oc in ex.exec_stmt(defs[0], st):
+                    st.env, st.pc, st.store = s3.env, s3.pc, s3.store
+                ex.assumed.append('slice: `%s` is taken from its only assignment at line %d' % (name, defs[0].lineno))
+            except Unsupported:
+                pass
+        local_defs = {t.id for s in tail for n2 in ast.walk(s) if isinstance(n2, ast.Assign) for t in n2.targets if isinstance(t, ast.Name)}
+        for s in tail:
+            for nn in ast.walk(s):
+                if isinstance(nn, ast.Name) and isinstance(nn.ctx, ast.Load) and nn.id not in local_defs:
+                    define(nn.id)
         run_stmt(tail, st)
         rep.vcs = ex.vcs
         rep.assumed = sorted(set(ex.assumed))
